@@ -157,6 +157,17 @@ func C09Scenario() *Scenario {
 					EditObject(w, p.Res, p.NS, p.Name, "user", func(o Object) { setPath(o, "c-newer", "spec", "template", "color") })
 				}})
 		}
+		// an injected 404 / 409 / 410 is a lie about the store which the code rightly
+		// believes (a parent answered "not found" is not written to again, and nobody
+		// retries): what the rollout must reach is judged after one further event for
+		// the parent (DESIGN 10.3)
+		w.Stages = append(w.Stages, Stage{Name: "settled", Quiet: true, MaxSteps: 5000, Policy: fair, OnBudget: budget,
+			Do: func(w *World) {
+				if w.Plan != nil && (w.Plan.Kind == "404" || w.Plan.Kind == "409" || w.Plan.Kind == "410") && w.Plan.Fired {
+					EditObject(w, p.Res, p.NS, p.Name, "user", func(o Object) { setPath(o, fmt.Sprint(w.step), "metadata", "annotations", "nudge") })
+					w.Probe("c09:nudge-after-injected-lie")
+				}
+			}})
 		last := &w.Stages[len(w.Stages)-1]
 		last.Check = func(w *World) *Violation {
 			if w.Plan != nil {
